@@ -78,8 +78,20 @@ def check_python(report):
     r2.instance("first pass")
     r2.check(len(first) == 1 and first[0] in fn2.body, bd.module.path, fn2.lineno, "first pass loop with load_services=False",
              "the first pass must build every file without services")
-    second = [n for n in fn2.body if isinstance(n, (ast.Assign, ast.AnnAssign)) and isinstance(n.value, ast.DictComp)
-              and any(isinstance(c, ast.Call) and ast.unparse(c.func) == "Proto.build" for c in ast.walk(n.value))]
+    from ..pymodel import nfunc
+    nb = nfunc(m, bd, keep={"build", "Proto"}).body
+    class _Holder:      # (statement, dict comprehension) wherever the comprehension ended up after forward substitution
+        def __init__(self, st, dc):
+            self.st, self.value, self.lineno = st, dc, fn2.lineno
+    second = []
+    for st_ in nb:
+        for dc_ in ast.walk(st_):
+            if isinstance(dc_, ast.DictComp) and any(isinstance(c, ast.Call) and ast.unparse(c.func) == "Proto.build" for c in ast.walk(dc_)):
+                if not any(ast.unparse(h.value) == ast.unparse(dc_) for h in second):
+                    second.append(_Holder(st_, dc_))
+    first_n = [n for n in nb if isinstance(n, ast.For) and any(isinstance(c, ast.Call) and ast.unparse(c.func) == "Proto.build"
+                                                               and any(k.arg == "load_services" and ast.unparse(k.value) == "False" for k in c.keywords)
+                                                               for c in ast.walk(n))]
     r2.instance("second pass")
     r2.check(len(second) == 1, bd.module.path, fn2.lineno, "second pass comprehension", "the second pass must rebuild every proto")
     if first and second:
@@ -87,14 +99,14 @@ def check_python(report):
         for n in ast.walk(first[0]):
             if isinstance(n, ast.Assign) and isinstance(n.targets[0], ast.Subscript) and isinstance(n.targets[0].value, ast.Name):
                 PRE = n.targets[0].value.id
-        r2.check(fn2.body.index(first[0]) < fn2.body.index(second[0]), bd.module.path, second[0].lineno, "pass order", "types must be loaded before services")
+        r2.check(len(first_n) == 1 and nb.index(first_n[0]) < nb.index(second[0].st), bd.module.path, fn2.lineno, "pass order", "types must be loaded before services")
         dc = second[0].value
         c2 = [c for c in ast.walk(dc) if isinstance(c, ast.Call) and ast.unparse(c.func) == "Proto.build"][0]
         k2 = {x.arg: ast.unparse(x.value) for x in c2.keywords}
-        r2.check(PRE is not None and k2.get("prior_protos") == PRE and "load_services" not in k2, bd.module.path, c2.lineno, str(k2)[:160],
+        r2.check(PRE is not None and k2.get("prior_protos") == PRE and "load_services" not in k2, bd.module.path, fn2.lineno, str(k2)[:160],
                  "the second pass must see all first-pass protos as prior_protos and load services")
         it = dc.generators[0].iter
-        r2.check(PRE is not None and ast.unparse(it) == f"{PRE}.items()" and not dc.generators[0].ifs, bd.module.path, c2.lineno, ast.unparse(it),
+        r2.check(PRE is not None and ast.unparse(it) == f"{PRE}.items()" and not dc.generators[0].ifs, bd.module.path, fn2.lineno, ast.unparse(it),
                  "the second pass must rebuild every first-pass proto (no filter)")
     am = m.func("gapic.schema.api._ProtoBuilder.api_messages")
     node, _ = find_match("collections.ChainMap({}, self.proto_messages, *[_P_.all_messages for _P_ in self.prior_protos.values()])", am.node)
